@@ -140,7 +140,7 @@ ob("array", "VerifC03XArray", q, t,
    "SYMBOLIC fixnums (|x| < 40), the others concrete, printed with *print-array* t under *print-base* 2..36 with/without "
    "*print-radix*, flat or pretty (margin 20), read back under *read-base* = *print-base*: dimensions and elements must "
    "survive (the #nA rank prefix has to stay decimal)",
-   carves=["C03-array-rank-zero", "C03-array-zero-dimension", "C03-array-rank-in-print-base", "C03-integer-digits-spell-t-or-nil"], max_case_s=600)
+   carves=["C03-array-rank-zero", "C03-array-zero-dimension", "C03-array-zero-then-nonzero-dimension", "C03-array-rank-in-print-base", "C03-integer-digits-spell-t-or-nil"], max_case_s=600)
 
 # ---- quote forms ----
 q = [(f, a, 0, 0) for f in range(5) for a in range(11)] + [(f, a, 1, 0) for f in range(5) for a in (0, 1, 2)] + [(f, a, 2, 0) for f in (0, 1, 3) for a in (0, 1)] + [(f, 1, 1, 1) for f in range(5)]
